@@ -1,15 +1,16 @@
 package small
 
 import (
-	"verif/internal/effects"
-	"verif/internal/norm"
 	"fmt"
 	"go/ast"
 	"go/constant"
 	"go/token"
 	"go/types"
 	"sort"
+	"strconv"
 	"strings"
+	"verif/internal/effects"
+	"verif/internal/norm"
 
 	"golang.org/x/tools/go/packages"
 	"golang.org/x/tools/go/types/typeutil"
@@ -277,8 +278,16 @@ func OrderDomainIn(p *load.Program, rel string) *report.RuleResult {
 	res.Count("evaluations", cases)
 	res.Count("functions", len(methods))
 
-	// version.New: structural provenance
-	if w, err := effects.NewWorld(p); err != nil {
+	// version.New: what it computes, decided by evaluation; structural provenance when it cannot be evaluated
+	var newFd *ast.FuncDecl
+	for _, d := range load.FuncDecls(pk) {
+		if d.Recv == nil && d.Name.Name == "New" {
+			newFd = d
+		}
+	}
+	if problems, decided := versionNewByEval(pk, newFd); newFd != nil && decided {
+		res.Check(len(problems) == 0, "New", p.Pos(newFd.Pos()), "version.New", "on every version string of the family the result is (major, minor) of `<number>.<number>` and an error for everything else", strings.Join(problems, "; "))
+	} else if w, err := effects.NewWorld(p); err != nil {
 		res.Unknown("New", "-", "", "undecided:ssa: "+err.Error())
 	} else {
 		effects.VersionNew(w, rel, res)
@@ -321,6 +330,13 @@ func checkVersionNew(p *load.Program, pk *packages.Package, res *report.RuleResu
 	}
 	pos := p.Pos(fd.Pos())
 	info := pk.TypesInfo
+	// what New computes is decided first: its body is evaluated from source (package ceval) on a family of
+	// version strings and compared with the rule "exactly one dot separates two base-10 numbers that fit 64
+	// bits"; the shape of the body (which library call splits the string) is only read when it cannot be evaluated
+	if problems, decided := versionNewByEval(pk, fd); decided {
+		res.Check(len(problems) == 0, "New", pos, "version.New", "on every version string of the family the result is (major, minor) of `<number>.<number>` and an error for everything else", strings.Join(problems, "; "))
+		return
+	}
 	got := map[string]string{} // field -> "parts[i]"
 	var problems []string
 	splitOK := false
@@ -999,7 +1015,6 @@ func VersionFlow(p *load.Program) *report.RuleResult {
 	return res
 }
 
-
 func isVersionPtr(t types.Type) bool {
 	pt, ok := t.Underlying().(*types.Pointer)
 	if !ok {
@@ -1007,4 +1022,69 @@ func isVersionPtr(t types.Type) bool {
 	}
 	n, ok := pt.Elem().(*types.Named)
 	return ok && n.Obj().Name() == "Version" && n.Obj().Pkg() != nil && strings.HasSuffix(n.Obj().Pkg().Path(), "pkg/version")
+}
+
+// versionNewByEval evaluates New on strings around the format `<major>.<minor>`.
+func versionNewByEval(pk *packages.Package, fd *ast.FuncDecl) (problems []string, decided bool) {
+	if fd == nil {
+		return nil, false
+	}
+	family := []string{"7.4", "5.6", "7.0", "5.3", "10.12", "0.0", "07.04", "123456789.987654321", "18446744073709551615.1",
+		"", "7", ".", "7.", ".4", "7.4.1", "7..4", "a.b", "7.b", "a.4", "-7.4", "7.-4", "+7.4", " 7.4", "7.4 ", "7,4", "0x7.4", "7_0.4", "1e1.4",
+		"18446744073709551616.1", "1.18446744073709551616", "7.4\n", "..", "7.4.", "٧.٤"}
+	spec := func(v string) (ma, mi uint64, ok bool) {
+		i := strings.Index(v, ".")
+		if i < 0 {
+			return 0, 0, false
+		}
+		ma, err := strconv.ParseUint(v[:i], 10, 64)
+		if err != nil {
+			return 0, 0, false
+		}
+		mi, err = strconv.ParseUint(v[i+1:], 10, 64)
+		if err != nil {
+			return 0, 0, false
+		}
+		return ma, mi, true
+	}
+	in := ceval.New(pk)
+	for _, v := range family {
+		out, st, why := in.Call(fd, nil, []interface{}{v})
+		switch st {
+		case ceval.Unsupported, ceval.Diverged:
+			return nil, false
+		case ceval.Panic:
+			problems = append(problems, fmt.Sprintf("New(%q) panics: %s", v, why))
+			continue
+		}
+		if len(out) != 2 {
+			return nil, false
+		}
+		_, errNil := out[1].(ceval.Nil)
+		ver, isVer := out[0].(*ceval.Struct)
+		ma, mi, ok := spec(v)
+		switch {
+		case ok && (!errNil || !isVer):
+			problems = append(problems, fmt.Sprintf("New(%q) fails; it is version %d.%d", v, ma, mi))
+		case ok:
+			gma, ok1 := ver.Fields["Major"].(int64)
+			gmi, ok2 := ver.Fields["Minor"].(int64)
+			if !ok1 || !ok2 {
+				return nil, false
+			}
+			if uint64(gma) != ma || uint64(gmi) != mi {
+				problems = append(problems, fmt.Sprintf("New(%q) is %d.%d, not %d.%d", v, uint64(gma), uint64(gmi), ma, mi))
+			}
+		case !ok && errNil:
+			if isVer {
+				problems = append(problems, fmt.Sprintf("New(%q) succeeds with %v.%v; the string is not of the form <number>.<number>", v, ver.Fields["Major"], ver.Fields["Minor"]))
+			} else {
+				problems = append(problems, fmt.Sprintf("New(%q) returns neither a version nor an error", v))
+			}
+		}
+		if len(problems) >= 4 {
+			break
+		}
+	}
+	return problems, true
 }
